@@ -15,6 +15,13 @@ class MergeAbort(Exception):
     pass
 
 
+class Restart(Exception):
+    """an early-return merge turned out to be unsound to keep (a raise followed): redo without merging that if"""
+
+    def __init__(self, keys):
+        self.keys = keys
+
+
 class PathEnd(Exception):
     """control-flow signals inside one explored path"""
 
@@ -93,6 +100,9 @@ class Frame:
     locals: dict
     self_val: V | None = None
     module: object = None
+    pending: list = field(default_factory=list)      # merged early returns: (guard, value, effect index, if key)
+    loop_depth: int = 0
+    entry_merge_depth: int = 0
 
 
 @dataclass
